@@ -1158,6 +1158,53 @@ def enumerated(prop):
     return None
 
 
+def nfa_as_ta(N):
+    """an NFA as the tree automaton its Timbuk text denotes: symbol 0 = the nullary start symbol, letter b = unary symbol b+1"""
+    return TA([(0, (), q) for q in N.starts] + [(b + 1, (a,), c) for (a, b, c) in N.trans], list(N.finals))
+
+
+def cliop_case(rng, rep, op):
+    if rep == "expl_fa":
+        NA, NB = nfa_pair(rng)
+        A, B = nfa_as_ta(NA), nfa_as_ta(NB)
+    elif op == "cmpl":
+        toks = g_compl(rng).split(" ")
+        return f"cliop {rep} cmpl {toks[1]} {toks[2]}"
+    elif op == "simup":
+        A = py_trim(rand_ta(rng, nmax=5))
+        B = None
+    elif op in ("union", "isect"):
+        A, B, _ = rand_pair(rng)
+    else:
+        A = rand_ta(rng, nmax=5, dials=dict(dead_child=0.25, final_norule=0.15))
+        B = None
+    # the text format cannot express a rule twice or an automaton without any symbol: normalise
+    A = TA(list(dict.fromkeys(A.rules)), sorted(set(A.finals)))
+    if op in ("union", "isect"):
+        B = TA(list(dict.fromkeys(B.rules)), sorted(set(B.finals)))
+        return f"cliop {rep} {op} {A.tok()} {B.tok()}"
+    return f"cliop {rep} {op} {A.tok()}"
+
+
+def mk_cliop(choices):
+    def g(rng):
+        rep, op = rng.choice(choices)
+        return cliop_case(rng, rep, op)
+    return g
+
+
+CLIOPS = {
+    "cliop_c02": [("expl", "union"), ("expl", "isect")],
+    "cliop_c03": [("expl", "load"), ("expl", "loadp"), ("expl", "loads")],
+    "cliop_c04": [("expl", "simdown"), ("expl", "simup")],
+    "cliop_c05": [("expl", "red")],
+    "cliop_c06": [("expl", "cmpl")],
+    "cliop_c08": [(r, o) for r in ("bdd-td", "bdd-bu") for o in ("load", "loadp", "loads", "union", "isect")],
+    "cliop_c10": [("expl_fa", o) for o in ("load", "loadp", "loads", "witness", "union", "isect")],
+    "cliop_c15": [("expl", "witness")],
+}
+
+
 def g_apisweep(rng):
     """two tree automata (loaded into all three tree encodings) and two NFAs for the API sweep of C20"""
     A, B, _ = rand_pair(rng)
@@ -1167,6 +1214,7 @@ def g_apisweep(rng):
 
 GENERATORS = {
     "apisweep": g_apisweep,
+    **{k: mk_cliop(v) for k, v in CLIOPS.items()},
     "meta": g_meta, "metaf": g_metaf,
     "parse": g_parse,
     "bddincl": g_bddincl, "bddinclall": g_bddinclall, "bddtd": g_bddtd, "bddh": g_bddh,
